@@ -11,6 +11,11 @@ struct Built
     std::map<std::string, libcellml::ComponentPtr> comps;
     std::map<std::string, libcellml::VariablePtr> vars; // "comp/var"
     std::vector<libcellml::ResetPtr> resets;
+    // the same entities addressed by their position in the abstract model record
+    std::vector<libcellml::UnitsPtr> unitsAt;
+    std::vector<libcellml::ComponentPtr> compAt;
+    std::vector<std::vector<libcellml::VariablePtr>> varAt;
+    std::vector<std::vector<libcellml::ResetPtr>> resetAt;
     std::map<std::pair<std::string, std::string>, libcellml::ImportSourcePtr> imports; // (url, id)
     libcellml::ImportSourcePtr importSource(const std::string &url, const std::string &id);
 };
